@@ -82,24 +82,22 @@ GUID = f"{HEXDIG}{{8}}-{HEXDIG}{{4}}-{HEXDIG}{{4}}-{HEXDIG}{{4}}-{HEXDIG}{{12}}"
 #   ; at least one component; "T" must be followed by a time component)
 # statement: "duration (sign, years, months, days, hours, minutes, fractional seconds)" - years and months are
 # included (xs:duration).  A literal without the "duration" prefix is lexically a string and is outside.
-# bound: every component has at most DUR_DIGITS digits, so that all optional-part combinations fit into N = 44
-DUR_DIGITS = 3
-_NUM = "[0-9]{1,%d}" % DUR_DIGITS
-_SECS = f"{_NUM}(?:\\.{_NUM})?S"
-DUR_DATE = f"(?:{_NUM}Y(?:{_NUM}M)?(?:{_NUM}D)?|{_NUM}M(?:{_NUM}D)?|{_NUM}D)"
-DUR_TIME = f"T(?:{_NUM}H(?:{_NUM}M)?(?:{_SECS})?|{_NUM}M(?:{_SECS})?|{_SECS})"
-DUR_SHAPES = {"date": DUR_DATE, "time": DUR_TIME, "date+time": DUR_DATE + DUR_TIME}
-
-
-def duration_shape(shape: str) -> str:
-    return f"duration'{SIGN}?P{DUR_SHAPES[shape]}'"
-
-
 def _dur(num: str) -> Tuple[str, str]:
     secs = f"{num}(?:\\.{num})?S"
     dd = f"(?:{num}Y(?:{num}M)?(?:{num}D)?|{num}M(?:{num}D)?|{num}D)"
     dt = f"T(?:{num}H(?:{num}M)?(?:{secs})?|{num}M(?:{secs})?|{secs})"
     return dd, dt
+
+
+# bound of the "accept" direction: every component has at most `digits` digits, so that every optional-part
+# combination fits into N = 44 (3 digits: 41 characters)
+DUR_SHAPE_NAMES = ("date", "time", "date+time")
+
+
+def duration_shape(shape: str, digits: int = 3) -> str:
+    dd, dt = _dur("[0-9]{1,%d}" % digits)
+    body = {"date": dd, "time": dt, "date+time": dd + dt}[shape]
+    return f"duration'{SIGN}?P{body}'"
 
 
 _UD, _UT = _dur("[0-9]+")
@@ -207,7 +205,7 @@ def fullmatch(pattern: str, s: str) -> bool:
     return re.fullmatch(pattern, s, FLAGS) is not None
 
 
-def accept_shapes() -> List[Tuple[str, str, str, str, str]]:
+def accept_shapes(dur_digits: int = 3) -> List[Tuple[str, str, str, str, str]]:
     """(obligation suffix, token type, reference pattern, delimiters, bound class) of the 'accept' family."""
     out: List[Tuple[str, str, str, str, str]] = []
     out.append(("INTEGER", "INTEGER", INTEGER, DELIM_LITERAL, "num"))
@@ -221,8 +219,8 @@ def accept_shapes() -> List[Tuple[str, str, str, str, str]]:
     for sec in DT_SECONDS:
         for off in DT_OFFSETS:
             out.append((f"DATETIME[sec={sec},off={off}]", "DATETIME", datetime_shape(sec, off), DELIM_LITERAL, "long"))
-    for sh in DUR_SHAPES:
-        out.append((f"DURATION[{sh}]", "DURATION", duration_shape(sh), DELIM_LITERAL, "long"))
+    for sh in DUR_SHAPE_NAMES:
+        out.append((f"DURATION[{sh},<={dur_digits}digits]", "DURATION", duration_shape(sh, dur_digits), DELIM_LITERAL, "long"))
     for sh in GEO_LITERALS:
         out.append((f"GEOGRAPHY[{sh}]", "GEOGRAPHY", geography_shape(sh), DELIM_LITERAL, "long"))
     out.append(("IDENTIFIER[plain]", "ODATA_IDENTIFIER", IDENTIFIER_PLAIN, DELIM_IDENT, "str"))
